@@ -459,15 +459,33 @@ _REAL_TPE = concurrent.futures.ThreadPoolExecutor
 
 
 class Sink(io.RawIOBase):
-    def __init__(self, limit=None):
+    def __init__(self, limit=None, stall_at=None):
         super().__init__()
         self.data = bytearray()
         self.limit = limit      # I/O fault: the reader goes away once this many bytes have been written
+        self.stall_at = stall_at    # I/O fault: the reader stops reading for a while once this many bytes were written
+        self.released = False
+        self.waiting = False
+        self.patience = 0           # how many scheduling rounds the reader stays away at least
 
     def writable(self):
         return True
 
     def write(self, b):
+        s = CUR
+        if self.stall_at is not None and not self.released and len(self.data) >= self.stall_at \
+                and s is not None and is_main() and not s.in_cb and s.dead is None \
+                and not any(w.state != "done" for w in s.workers):
+            # (not while a tee thread is alive: it writes through the same BufferedWriter, whose lock the blocked
+            # main thread holds - the simulator could not step that thread)
+            # a paused pager, a terminal in Ctrl-S, a log collector applying back pressure: write() blocks until
+            # the reader resumes (an environment event)
+            self.waiting = True
+            s.count("fault.own_stdout_stalled")
+            try:
+                s.block(lambda: self.released, "stdout-stalled")
+            finally:
+                self.waiting = False
         if self.limit is not None and len(self.data) >= self.limit:
             s = CUR
             if s is not None:
@@ -1018,6 +1036,7 @@ def _sh_signal(sig, h):
         return REAL.signal(sig, h)
     old = s.handlers.get(sig, signal.SIG_DFL)
     s.handlers[sig] = h
+    s.sa_restart[int(sig)] = False        # signal.signal() implies siginterrupt(sig, True)
     if sig == signal.SIGCHLD and getattr(s, "real_chld_fault", False):
         # the inherited SIG_IGN is a real disposition of this process (it decides what waitpid() says
         # about the real tar child): what the program sets replaces it
@@ -1026,6 +1045,18 @@ def _sh_signal(sig, h):
     s.emit("sigreg", signal.Signals(sig).name, getattr(h, "__name__", str(h)))
     s.after_call()
     return old
+
+
+def _sh_siginterrupt(sig, flag):
+    s = CUR
+    if s is None or not is_main() or sig not in (signal.SIGCHLD, signal.SIGINT, signal.SIGTERM):
+        return REAL_SIGINTERRUPT(sig, flag)
+    s.sa_restart[int(sig)] = not flag
+    s.emit("siginterrupt", signal.Signals(sig).name, bool(flag))
+    s.after_call()
+
+
+REAL_SIGINTERRUPT = signal.siginterrupt
 
 
 def _sh_set_wakeup_fd(fd, *, warn_on_full_buffer=True):
@@ -1246,6 +1277,7 @@ def install():
     signal.signal = _sh_signal
     signal.getsignal = _sh_getsignal
     signal.set_wakeup_fd = _sh_set_wakeup_fd
+    signal.siginterrupt = _sh_siginterrupt
     os.read = _sh_read
     time.time = _sh_time
     sqlite3.connect = _sh_sqlite_connect
@@ -1369,6 +1401,9 @@ class Sim:
         self.wakeup_fd = None
         self.registered = set()
         self.dead = None
+        self.sa_restart = {}
+        self.osink = None
+        self.stall_cps = []
 
     def count(self, key, k=1):
         self.stats[key] = self.stats.get(key, 0) + k
@@ -1791,6 +1826,11 @@ class Sim:
                         p.ip >= len(p.script.get("steps", [])) and not p.term and p.partial is None:
                     continue
                 acts.append("c:" + p.name)
+        sk = getattr(self, "osink", None)
+        if sk is not None and sk.waiting and not sk.released and not acts:
+            # adversarial reader: it resumes only when nothing else can happen any more (every task has run as
+            # far as it gets on its own) - whatever Conductor does before that cannot have depended on it
+            acts.append("r:stdout")
         if self.workers:
             active = {}
             for w in self.workers:
@@ -1816,6 +1856,9 @@ class Sim:
                     if p.state == "running" and self.child_enabled(p):
                         self.child_step(p)
                     return
+        elif a == "r:stdout":
+            self.osink.released = True
+            self.emit("stdout-released")
         elif a[0] == "w":
             i = int(a[2:])
             if i < len(self.workers):
@@ -1937,6 +1980,8 @@ class Sim:
         while True:
             if int(signal.SIGTERM) in self.registered:
                 self.cp += 1
+                if why == "stdout-stalled":
+                    self.stall_cps.append(self.cp)
                 sp = self.sig_plan
                 if sp is not None and self.cp == sp[0]:
                     self.sig_plan = None
@@ -1945,7 +1990,12 @@ class Sim:
                     self._signal_fired(sp, "block:" + why, live)
             if self.pending and not self.in_cb and self.sig_seq != seen_seq:
                 seen_seq = self.sig_seq
-                self.dispatch()
+                if any(not self.sa_restart.get(sg) for sg in self.pending):
+                    # (a handler installed with SA_RESTART does not interrupt the call: the kernel restarts it and
+                    # the Python-level handler stays pending until the call is over)
+                    self.dispatch()
+                elif not ready():
+                    self.emit("restarted-call-holds-signal", why, sorted(self.pending))
             if ready():
                 return
             acts = self.enabled_actions()
@@ -2026,7 +2076,9 @@ class Sim:
         own = op.get("own_stdout") or {}
         # own stdout: a terminal (line buffered) or a pipe (block buffered, as CPython does it); the reader of
         # the pipe may go away after a number of bytes (`cond run ... | head`): EPIPE from then on
-        osink, esink = Sink(own.get("gone_after")), Sink()
+        osink, esink = Sink(own.get("gone_after"), own.get("stall_at")), Sink()
+        osink.patience = int(own.get("stall_len", 0))
+        self.osink = osink
         sys.stdout = OutText(io.BufferedWriter(osink), encoding="utf-8", errors="strict",
                              line_buffering=own.get("mode", "tty") != "pipe")
         sys.stderr = ErrText(io.BufferedWriter(esink), encoding="utf-8", errors="backslashreplace",
@@ -2136,6 +2188,7 @@ class Sim:
         inv.spawns = self.spawns
         inv.n, inv.cp, inv.ki = self.n, self.cp, self.ki
         inv.cp_marks = list(self.cp_marks)
+        inv.stall_cps = list(self.stall_cps)
         inv.sig_where = self.sig_where
         inv.plan = self.sched.recorded()
         inv.t1 = self.clock
